@@ -54,9 +54,11 @@ def run(ck):
             for p, i, scrut in arms[hits[0]]:
                 sets = [(e[1], e[2]) for e in p.events[i + 1:] if e[0] == 'set']
                 # effects up to the post-switch test
-                want = [('eav->errcode', f'EEAV_TLD_{x}'), ('tld_test', f'(eav->allow_tld & EAV_TLD_{x})')]
+                want = [('eav->errcode', f'EEAV_TLD_{x}'), ('<a local>', f'(eav->allow_tld & EAV_TLD_{x})')]
                 head = sets[:2]
-                if sorted(head) != sorted(want): okall = False; det = {'effects': sets, 'want': want}
+                # the arm records the class's code and keeps the mask test in a local (whatever it is called)
+                got_ok = len(head) == 2 and ('eav->errcode', f'EEAV_TLD_{x}') in head and any(re.fullmatch(r'\w+', t) and v == f'(eav->allow_tld & EAV_TLD_{x})' for t, v in head)
+                if not got_ok: okall = False; det = {'effects': sets, 'want': want}
                 rs = p.last_set('eav->result', before=i)
                 if rs is None or scrut != rs[2] + '->rc': okall = False; det = {'scrutinee': scrut, 'result': rs[2] if rs else None}
             r1.instance(asite, ok=okall, detail=det, wclass='arm-effects', what=f'arm of class {x} does not set errcode = EEAV_TLD_{x} and test allow_tld & EAV_TLD_{x}: {det}')
@@ -75,14 +77,14 @@ def run(ck):
             reads_mask = lambda evs: any('allow_tld' in t for t in cfgpaths_text(evs))
             if arm_i < 0:
                 # rc == 0 -> YES/NO_ERROR ; rc < 0 -> NO ; both without looking at the mask
-                zero = p.passed(rc, False)
-                neg = p.passed(rc, True) and p.passed(f'({rc} < 0)', True)
+                zero = shared.value_is_zero(p, rc)
+                neg = shared.value_is_nonzero(p, rc) and (p.passed(f'({rc} < 0)', True) or p.passed(f'({rc} >= 0)', False))
                 ok = (zero or neg) and not reads_mask(p.events)
                 if zero: ok = ok and ret[1] == '1' and p.last_set('eav->errcode') and p.last_set('eav->errcode')[2] == 'EEAV_NO_ERROR'
                 if neg: ok = ok and ret[1] == '0'
                 r3.instance(f'{site}:path{n}', ok=ok, wclass='pre-switch', detail=txt, what='a path that never reaches the class switch is not (rc == 0 -> accept) / (rc < 0 -> reject) without reading allow_tld')
                 continue
-            ok = p.passed(rc, True, before=arm_i) and p.passed(f'({rc} < 0)', False, before=arm_i) and not reads_mask(p.events[:arm_i])
+            ok = shared.value_is_nonzero(p, rc, arm_i) and (p.passed(f'({rc} < 0)', False, before=arm_i) or p.passed(f'({rc} >= 0)', True, before=arm_i)) and not reads_mask(p.events[:arm_i])
             arm = p.events[arm_i][1]
             if '<default>' in arm:
                 ok = ok and p.events[-1][0] == 'abort'
